@@ -170,6 +170,7 @@ type xfer struct {
 	onRead    func(d *xferDir, r *readRec)
 	bufSize   int
 	odd       []*msgRec // calls that must have had no effect
+	hostile   bool      // C03: an adversary forges packets (forward-TSNs may purge a reliable stream's queue at any time)
 	seqBase   bool      // C16: every stream starts its SSN / MID spaces at the run's base (white-box, both ends)
 }
 
@@ -408,7 +409,7 @@ func (x *xfer) gotStream(ep *endpoint, sid uint16, s *Stream) *simStream {
 					if rs.n <= len(small) {
 						w.violate("C18", "short-buffer-length", "%s stream %d: ReadSCTP into %d bytes returned ErrShortBuffer with n=%d", ep.name, sid, len(small), rs.n)
 					}
-					if after := accReasmCounter(st.s); after < before && d.reliable() {
+					if after := accReasmCounter(st.s); after < before && d.reliable() && !x.hostile {
 						w.violate("C11", "short-read-released-bytes", "%s stream %d: a read that failed with ErrShortBuffer changed the queued-byte counter from %d to %d although the message is still queued", ep.name, sid, before, after)
 					}
 					// the adequate read that follows must return that same message; where ordered and
